@@ -160,6 +160,32 @@ impl Subj {
 		})
 	}
 
+	/// replace the instance by its own serde_json snapshot restored (C13): Err(msg) when deserialization fails
+	pub fn reserialize(&mut self) -> Result<(), String> {
+		macro_rules! rt {
+			($m:expr, $ty:ty) => {{
+				let text = serde_json::to_string(&*$m).map_err(|e| e.to_string())?;
+				*$m = serde_json::from_str::<$ty>(&text).map_err(|e| format!("{e}: {text}"))?;
+			}};
+		}
+		match self {
+			Subj::Highest(m) => rt!(m, Highest),
+			Subj::Lowest(m) => rt!(m, Lowest),
+			Subj::Delta(m) => rt!(m, HighestLowestDelta),
+			Subj::HIdx(m) => rt!(m, HighestIndex),
+			Subj::LIdx(m) => rt!(m, LowestIndex),
+			Subj::Smm(m) => rt!(m, SMM),
+			Subj::Mad(m) => rt!(m, MedianAbsDev),
+			Subj::Above(m) => rt!(m, CrossAbove),
+			Subj::Under(m) => rt!(m, CrossUnder),
+			Subj::Cross(m) => rt!(m, Cross),
+			Subj::Upper(m) => rt!(m, UpperReversalSignal),
+			Subj::Lower(m) => rt!(m, LowerReversalSignal),
+			Subj::Both(m) => rt!(m, ReversalSignal),
+		}
+		Ok(())
+	}
+
 	/// Peekable::peek where the subject implements it
 	pub fn peek(&self) -> Option<Raw> {
 		Some(match self {
@@ -214,9 +240,11 @@ pub fn replay(args: &[String]) {
 		let p = params_of(b);
 		let xs = b["xs"].as_array().unwrap();
 		let ys = b["ys"].as_array().unwrap();
-		for e in 0..EMBS {
+		// every behaviour runs under every embedding; under embeddings 0 and 6 it runs a second time with the
+		// instance replaced by its restored serde_json snapshot before every call (C13)
+		for e2 in 0..(EMBS + 2) {
+			let (e, restore) = if e2 < EMBS { (e2, false) } else { ([0u8, 6u8][(e2 - EMBS) as usize], true) };
 			let emb = Emb(e);
-			// the delta / median of two elements is compared as a float expression: any embedding works
 			let mut m = match Subj::new(subject, &p, emb, &b["init"]) {
 				Ok(Ok(m)) => m,
 				other => {
@@ -231,6 +259,19 @@ pub fn replay(args: &[String]) {
 			};
 			// a clone taken before the stream must not be disturbed by it (checked at the end)
 			for (i, x) in xs.iter().enumerate() {
+				if restore {
+					match catch(|| m.reserialize()) {
+						Ok(Ok(())) => {}
+						Ok(Err(msg)) => {
+							out.mismatch(&format!("{subject}:restore:err"), json!({"params": p, "init": b["init"], "xs": xs[..i], "msg": msg}));
+							break;
+						}
+						Err(msg) => {
+							out.mismatch(&format!("{subject}:restore:panic"), json!({"params": p, "init": b["init"], "xs": xs[..i], "msg": msg}));
+							break;
+						}
+					}
+				}
 				let r = m.next(emb, x);
 				calls += 1;
 				let ok = match &r {
@@ -240,7 +281,7 @@ pub fn replay(args: &[String]) {
 				out.checked += 1;
 				if !ok {
 					out.mismatch(
-						&format!("{subject}:next:{}", if r.is_err() { "panic" } else { "value" }),
+						&format!("{subject}:{}:{}", if restore { "next-after-restore" } else { "next" }, if r.is_err() { "panic" } else { "value" }),
 						json!({"params": p, "init": b["init"], "xs": xs[..=i], "emb": e, "step": i,
 							"expected": ys[i], "actual": raw_json(&r)}),
 					);
